@@ -32,9 +32,9 @@ def mkF? (s : String) : Option Model.AbsMk.F :=
   match s.toList with
   | o :: rest =>
     match bits? (String.ofList rest) with
-    | some [a, b, c, d, e, g, h, i] =>
+    | some [a, b, c, d, e, g, h, i, j] =>
       let n := if o == '0' then 0 else if o == '1' then 1 else 2
-      some (((((((((Model.AbsMk.F.init.setOpenings n).setOpeningRec a).setInvoicePaid b).setSpentBack c).setClaimTxRec d).setCsvWatch e).setResend g).setSuspicious h).setAgreementRec i)
+      some ((((((((((Model.AbsMk.F.init.setOpenings n).setOpeningRec a).setInvoicePaid b).setSpentBack c).setClaimTxRec d).setCsvWatch e).setResend g).setSuspicious h).setAgreementRec i).setOpenFailed j)
     | _ => Option.none
   | [] => Option.none
 
@@ -60,9 +60,9 @@ def handleAbs (st : AbsState) : List String → Option (AbsState × String)
     let r ← role? role
     let sys := Model.AbsC06.sys r (tableOf r) ⟨← bool? ewp, ← bool? cip⟩
     pure (.c06 sys [initMC sys], "ok")
-  | ["abs.reset", "Mk", role, cib, sf, pf] => do
+  | ["abs.reset", "Mk", role, cib, eab, sf, pf] => do
     let r ← role? role
-    let sys := Model.AbsMk.sys (tableOf r) ⟨r == .SwapInSender, ← bool? cib, ← bool? sf, ← bool? pf⟩
+    let sys := Model.AbsMk.sys (tableOf r) ⟨r == .SwapInSender, ← bool? cib, ← bool? eab, false, ← bool? sf, ← bool? pf⟩
     pure (.mk sys [initMC sys], "ok")
   | ["abs.reset", "Ng", role] => do
     let r ← role? role
